@@ -211,6 +211,16 @@ def alphabet():
     ops.append(Op("using-delete", "DELETE { ?x %s ?y } USING %s WHERE { ?x %s ?y }" % (tt(P), tt(G1), tt(P)), "modify", where=W, using=[G1], delete=[(None, [(X, P, Y)])], needs_dataset=True))
     ops.append(Op("using-named-insert", "INSERT { ?x %s ?y } USING NAMED %s WHERE { GRAPH %s { ?x %s ?y } }" % (tt(Q), tt(G1), tt(G1), tt(P)), "modify",
                   where=("graph", G1, W), using_named=[G1], insert=[(None, [(X, Q, Y)])], needs_dataset=True))
+    # WITH and USING together: USING decides what WHERE sees, WITH still names the graph the bare templates write to
+    ops.append(Op("with-using-swap", "WITH %s DELETE { ?x %s ?y } INSERT { ?y %s ?x } USING %s WHERE { ?x %s ?y }" % (tt(G1), tt(P), tt(P), tt(G2), tt(P)), "modify", where=W,
+                  using=[G2], delete=[(None, [(X, P, Y)])], insert=[(None, [(Y, P, X)])], needs_dataset=True, **{"with": G1}))
+    ops.append(Op("with-using-insert-graph", "WITH %s INSERT { ?x %s ?y . GRAPH %s { ?y %s ?x } } USING %s WHERE { ?x %s ?y }" % (tt(G1), tt(Q), tt(G2), tt(Q), tt(G2), tt(P)), "modify",
+                  where=W, using=[G2], insert=[(None, [(X, Q, Y)]), (G2, [(Y, Q, X)])], needs_dataset=True, **{"with": G1}))
+    ops.append(Op("with-using-named-delete", "WITH %s DELETE { ?x %s ?y } USING NAMED %s WHERE { GRAPH %s { ?x %s ?y } }" % (tt(G1), tt(P), tt(G2), tt(G2), tt(P)), "modify",
+                  where=("graph", G2, W), using_named=[G2], delete=[(None, [(X, P, Y)])], needs_dataset=True, **{"with": G1}))
+    ops.append(Op("with-using-both", "WITH %s INSERT { ?x %s ?y } USING %s USING NAMED %s WHERE { { ?x %s ?y } UNION { GRAPH %s { ?x %s ?y } } }"
+                  % (tt(G2), tt(Q), tt(G1), tt(G2), tt(P), tt(G2), tt(P)), "modify", where=("union", W, ("graph", G2, W)), using=[G1], using_named=[G2],
+                  insert=[(None, [(X, Q, Y)])], needs_dataset=True, **{"with": G2}))
     ops.append(Op("delete-g1-where-g2", "DELETE { GRAPH %s { ?x %s ?y } } WHERE { GRAPH %s { ?x %s ?y } }" % (tt(G1), tt(P), tt(G2), tt(P)), "modify", where=("graph", G2, W),
                   delete=[(G1, [(X, P, Y)])], needs_dataset=True))
     for verb in ("CLEAR", "DROP"):
